@@ -116,6 +116,10 @@ def instantiate(x, model, terms, widths=None):
         while i < len(x):
             if x[i] == PH_START and i + 2 < len(x) and x[i + 2] == PH_END:
                 k = ord(x[i + 1]) - PH_BASE
+                if hasattr(terms[k], "instantiate"):           # a SymStr
+                    out.append(terms[k].instantiate(model))
+                    i += 3
+                    continue
                 txt = str(model.eval(terms[k].t, model_completion=True).as_long())
                 out.append(txt.rjust(widths[k]) if widths else txt)
                 i += 3
@@ -125,6 +129,8 @@ def instantiate(x, model, terms, widths=None):
         return "".join(out)
     if isinstance(x, SymInt):
         return model.eval(x.t, model_completion=True).as_long()
+    if hasattr(x, "instantiate") and hasattr(x, "pieces"):
+        return x.instantiate(model)
     if isinstance(x, SymBool):
         return z3.is_true(model.eval(x.t, model_completion=True))
     if isinstance(x, (list, tuple)):
